@@ -182,8 +182,10 @@ class Index:
         e = self.enums.get(name)
         return e[0][1] if e and len(e) == 1 else None
 
-    def struct(self, name):
+    def struct(self, name, module=None):
         s = self.structs.get(name)
+        if s and module is not None:
+            s = [x for x in s if module in x[0]] or s
         return s[0][1] if s and len(s) == 1 else None
 
     def const(self, name):
